@@ -15,7 +15,7 @@ RULE = ("strings generated from the URI grammar and its near misses (3 protocols
         "PYTHONHASHSEEDs. distinct = distinct strings; non-trivial = strings URI() accepts")
 ASSUMPTIONS = ["hash() raising TypeError for a PYROMETA uri (set-valued object) is recorded, not flagged: no hash is not an unequal hash",
                "json/msgpack carry the PYROMETA tag set as a list (C01's mapping); compared as a set"]
-REQUIRED_REACH = ["accepted", "rejected", "ser_roundtrips", "proxy_roundtrips", "ns_roundtrips", "unequal_location_pairs"]
+REQUIRED_REACH = ["variant_pairs", "accepted", "rejected", "ser_roundtrips", "proxy_roundtrips", "ns_roundtrips", "unequal_location_pairs"]
 SHARD_TIMEOUT = {"quick": 200, "thorough": 2400}
 
 PROTOS = ["PYRO", "pyro", "PyRo", "PYRONAME", "pyroname", "PyroName", "PYROMETA", "pyrometa", "PyroMeta", "PYROX", "PYR", "PYRONAMES", "pYRO"]
@@ -204,6 +204,22 @@ def check_pair(env, a, b, rec, sa, sb):
             pass
 
 
+def variants(s, r):
+    """strings related to s: same uri spelled differently, or differing in exactly one component"""
+    out = []
+    head, at, loc = s.rpartition("@")
+    if at:
+        out += [head + "@" + loc.upper(), head + "@" + loc.lower(), head + "@" + loc.swapcase(), head.swapcase() + "@" + loc]
+        host, colon, port = loc.rpartition(":")
+        if colon:
+            out += [head + "@" + host + ":" + p for p in ("+" + port, "0" + port, " " + port, port + "1", "1" + port)]
+            out += [head + "@" + host.upper() + ":" + port, head + "@" + host + "x:" + port]
+    proto, colon, rest = s.partition(":")
+    if colon:
+        out += [proto.lower() + ":" + rest, proto.upper() + ":" + rest, proto.swapcase() + ":" + rest]
+    return out
+
+
 def plan(tier, seed):
     n = 8 if tier == "quick" else 16
     per = 20000 if tier == "quick" else 120000
@@ -226,6 +242,14 @@ def run_shard(shard, rec):
                 if prev is not None:
                     check_pair(env, u, prev[0], rec, s, prev[1])
                 prev = (u, s)
+                if j % 4 == 0:
+                    for vs in variants(s, r):
+                        try:
+                            v = env.URI(vs)
+                        except Exception:
+                            continue
+                        rec.count("variant_pairs")
+                        check_pair(env, u, v, rec, s, vs)
         # random text fuzz on the parser (mostly rejected; whatever is accepted must satisfy the same laws)
         from hypothesis import strategies as st
 
